@@ -798,6 +798,18 @@ func (wd *World) lmStep(u string) (string, error) {
 		return "lm: nothing applicable", nil
 	}
 	_, err := wd.Exec(p)
+	if err == nil && wd.R.Intn(3) == 0 {
+		// the mutation history of a body between the root and this version: the one request that reads a version's
+		// mutation log while the log is open for appending
+		bl := sortedU64(st.bodies())
+		if len(bl) > 0 {
+			b := bl[wd.R.Intn(len(bl))]
+			if _, err := wd.do("GET", fmt.Sprintf("/api/node/%s/lm/history/%d/%s/%s", u, b, wd.Root, u), nil, fmt.Sprintf("GET lm/history/%d/root/%s", b, wd.short(u))); err != nil {
+				return "lm " + p.Kind + " + history", err
+			}
+			return "lm " + p.Kind + " + history", nil
+		}
+	}
 	return "lm " + p.Kind, err
 }
 
